@@ -211,17 +211,18 @@ def make_families(ns, ps, ks):
     return Harness(run, base, name="families")
 
 
-def make_tuned(det, n, p=1, level=0.2):
-    """threshold_scale=None: threshold_ is the (1-level) quantile of exactly the training scores."""
+def make_tuned(det, n, p=1, level=0.2, b=1, mdi=1):
+    """threshold_scale=None: threshold_ is the (1-level) quantile of exactly the training scores (whatever the other
+    hyper-parameters are: b / mdi = bandwidth / min_detection_interval of the moving window, seed C15-f)."""
     X = pd.DataFrame(np.zeros((n, p)))
-    info = dict(part="tuned", det=det, n=n, p=p, level=level)
+    info = dict(part="tuned", det=det, n=n, p=p, level=level, b=b, mdi=mdi)
 
     def run(eng, acc):
         from skchange.anomaly_detectors import CircularBinarySegmentation
         from skchange.change_detectors import MovingWindow, SeededBinarySegmentation
         if det == "MovingWindow":
-            d = MovingWindow(TableChangeScore(p=p), bandwidth=1, threshold_scale=None, level=level).fit(X)
-            want = [tsum([z3.Real(f"T_{t - 1}_{t}_{t + 1}_{j}") for j in range(p)]) if 1 <= t <= n - 1 else z3.RealVal(0) for t in range(n)]
+            d = MovingWindow(TableChangeScore(p=p), bandwidth=b, threshold_scale=None, level=level, min_detection_interval=mdi).fit(X)
+            want = [tsum([z3.Real(f"T_{t - b}_{t}_{t + b}_{j}") for j in range(p)]) if b <= t <= n - b else z3.RealVal(0) for t in range(n)]
         elif det == "SBS":
             d = SeededBinarySegmentation(TableChangeScore(p=p), threshold_scale=None, level=level, min_segment_length=1,
                                          max_interval_length=200, growth_factor=2.0).fit(X)
@@ -285,6 +286,9 @@ def jobs(tier):
         mono = [(3, 1), (4, 1), (5, 1), (5, 2), (6, 2), (7, 3)]      # (7, 2) alone exceeds 30 min (product of two 11 476-path runs)
     for (det, n, p) in tuned:
         out.append(Job(M, "make_tuned", dict(det=det, n=n, p=p), split=n >= 5 and det != "MovingWindow"))
+    # tuning must not depend on the detection-time parameters (bandwidth >= 4 allows min_detection_interval = 2)
+    for (n, b, mdi) in ([(10, 4, 2)] if tier == "quick" else [(10, 4, 2), (14, 6, 3), (9, 4, 1)]):
+        out.append(Job(M, "make_tuned", dict(det="MovingWindow", n=n, p=1, b=b, mdi=mdi)))
     for (n, m) in mono:
         out.append(Job(M, "make_pelt_monotone", dict(n=n, m=m), split=True))
     return out
@@ -414,8 +418,9 @@ def _replay_rest(cx, info, model, ob, part, key):
         t = Tab()
         with proxy.native():
             if det == "MovingWindow":
-                d = MovingWindow(TableChangeScore(p=p, values=t), bandwidth=1, threshold_scale=None, level=level).fit(X)
-                sc = MovingWindow(TableChangeScore(p=p, values=t), bandwidth=1, threshold_scale=1.0).fit(X).transform_scores(X).values
+                b_, mdi_ = info.get("b", 1), info.get("mdi", 1)
+                d = MovingWindow(TableChangeScore(p=p, values=t), bandwidth=b_, threshold_scale=None, level=level, min_detection_interval=mdi_).fit(X)
+                sc = MovingWindow(TableChangeScore(p=p, values=t), bandwidth=b_, threshold_scale=1.0).fit(X).transform_scores(X).values
             elif det == "SBS":
                 kw = dict(min_segment_length=1, max_interval_length=200, growth_factor=2.0, level=level)
                 d = SeededBinarySegmentation(TableChangeScore(p=p, values=t), threshold_scale=None, **kw).fit(X)
